@@ -20,7 +20,7 @@ import (
 // C02: namespace operations refine a POSIX tree model; caches are transparent.
 func TestVerif_C02(t *testing.T) {
 	rec := evid.New("C02")
-	rec.Rule = "seeded 60-op histories over names {a,b,c,d}, depth<=3, of LOOKUP/CREATE/MKDIR/SYMLINK/REMOVE/RMDIR/RENAME/READDIR(PLUS)/GETATTR/READLINK/WRITE executed in lockstep on servers differing only in cache configuration (4 quick, 8 thorough), judged against a model tree; plus every namespace mutation with exactly one of its changing backend calls failed (EPERM, EIO): reply and backend tree must tell the same story; distinct = (procedure, target exists, handle unambiguous, status) tuples"
+	rec.Rule = "seeded 60-op histories over names {a,b,c,d}, depth<=3, of LOOKUP/CREATE/MKDIR/SYMLINK/REMOVE/RMDIR/RENAME/READDIR(PLUS)/GETATTR/READLINK/WRITE executed in lockstep on servers differing only in cache configuration (4 quick, 8 thorough), judged against a model tree; plus every namespace mutation with exactly one of its changing backend calls failed (EPERM, EIO) or slowed beyond the operation's timeout: reply and backend tree must tell the same story; distinct = (procedure, target exists, handle unambiguous, status) tuples"
 	defer rec.Write()
 	cfgs := vfTreeConfigs(evid.Tier() == "thorough")
 	eps := evid.Pick(120, 3000)
@@ -211,6 +211,10 @@ func vfC02Faults(rec *evid.Rec) {
 				if cached {
 					o = ExportOptions{AttrCacheTimeout: time.Hour, EnableDirCache: true, CacheNegativeLookups: true}
 				}
+				// short per-operation timeouts (the request as a whole keeps the default 30 s): a backend
+				// call that is merely slow outlives them
+				st := 40 * time.Millisecond
+				o.Timeouts = &TimeoutConfig{ReadTimeout: st, WriteTimeout: st, LookupTimeout: st, ReaddirTimeout: st, CreateTimeout: st, RemoveTimeout: st, RenameTimeout: st, HandleTimeout: st, DefaultTimeout: 30 * time.Second}
 				srv, err := vfNewSrv(fs, o)
 				if err != nil {
 					rec.Infra(err.Error())
@@ -253,7 +257,7 @@ func vfC02Faults(rec *evid.Rec) {
 				return
 			}
 			for k, callName := range calls {
-				for _, ferr := range []error{os.ErrPermission, errors.New("input/output error")} {
+				for _, ferr := range []error{os.ErrPermission, errors.New("input/output error"), vfC02Slow} {
 					fs, srv, c, dh, ok := setup()
 					if !ok {
 						return
@@ -263,6 +267,12 @@ func vfC02Faults(rec *evid.Rec) {
 					fs.SetHook(func(op *refs.Op, ph refs.Phase) error {
 						if ph == refs.Before && changing(op) {
 							if int(n.Add(1))-1 == k {
+								if ferr == vfC02Slow {
+									// not a failure: the call takes four times the operation's timeout and then
+									// does its work
+									time.Sleep(160 * time.Millisecond)
+									return nil
+								}
 								return ferr
 							}
 						}
@@ -284,7 +294,7 @@ func vfC02Faults(rec *evid.Rec) {
 							outcome = "refused"
 							if eq, diff := refs.SnapEqual(before, after); !eq {
 								outcome = "refused-but-changed"
-								rec.Violate("C02/failed-request-changed-the-tree/proc="+od.name+"/failing-backend-call="+callName, fmt.Sprintf("%s answered status %d because backend call #%d (%s) failed with %q, yet the tree changed: %s", od.name, r.Status, k, callName, ferr, diff), desc)
+								rec.Violate("C02/failed-request-changed-the-tree/proc="+od.name+"/failing-backend-call="+callName, fmt.Sprintf("%s answered status %d while backend call #%d (%s) met %q, yet the tree changed: %s", od.name, r.Status, k, callName, ferr, diff), desc)
 							}
 						} else {
 							outcome = "ok"
@@ -311,13 +321,15 @@ func vfC02Faults(rec *evid.Rec) {
 						}
 					}
 					rec.Distinct(fmt.Sprintf("fault|%s|caches=%v|call=%s|%s|%s", od.name, cached, callName, ferr, outcome))
-					outcomes[fmt.Sprintf("%s: call #%d %s fails -> %s", od.name, k, callName, outcome)]++
+					outcomes[fmt.Sprintf("%s: call #%d %s meets %q -> %s", od.name, k, callName, ferr.Error(), outcome)]++
 					srv.Close()
 				}
 			}
 		}
 	}
 }
+
+var vfC02Slow = errors.New("slow (4x the operation timeout, then succeeds)")
 
 func vfC02KindName(k refs.Kind) string {
 	switch k {
